@@ -16,8 +16,8 @@
 //!   reload/route-lost/<family>                 a judged stream (changed or not) diverges and hook H4 shows that the
 //!                                              expected engine handed it an event of some type at a step where the
 //!                                              reloaded engine did not
-//!   reload/old-definition-kept/<family>        a changed stream behaves exactly like the never-reloaded old program
-//!   reload/report/changed-stream-not-updated   ReloadReport does not list a changed stream as updated / added
+//!   reload/old-definition-kept/<edit>/<family> a changed stream behaves exactly like the never-reloaded old program
+//!   reload/report/changed-stream-not-updated/<edit>/<family>   ReloadReport does not list a changed stream as updated / added
 //!   reload/same-program/order-only             every stream's own outputs equal, interleaving across streams differs
 //!   reload/unchanged-stream/<family>/<state-reset|different>
 //!   reload/changed-stream/<edit>/<family>/different
@@ -165,11 +165,14 @@ fn edit_stream(rng: &mut Rng, p: &Prog, idx: usize, edit: &str) -> Option<Stream
         },
         "add-step" => match &mut s.kind {
             Kind::Filter { min_x: m @ None, .. } => *m = Some(rng.range(1, 3)),
+            // a step appended at the very end of the chain
+            Kind::Filter { emit: e @ false, .. } => *e = true,
             Kind::Window { pre_min_x: m @ None, .. } => *m = Some(rng.range(1, 3)),
             Kind::Seq { steps, .. } if steps.len() < 3 && !steps.iter().any(|s| s.all) => steps.push(SeqStep { ty: BASE_TYPES[rng.below(3)].to_string(), all: false, filt: None }),
             _ => return None,
         },
         "remove-step" => match &mut s.kind {
+            Kind::Filter { min_x: Some(_), emit: e @ true, .. } if rng.chance(1, 2) => *e = false,
             Kind::Filter { min_x: m @ Some(_), .. } => *m = None,
             Kind::Window { pre_min_x: m @ Some(_), .. } => *m = None,
             Kind::Window { post_min_n: m @ Some(_), .. } => *m = None,
@@ -524,7 +527,7 @@ fn check_case(case: &Case, only_cut: Option<usize>, out: &mut Partial, rt: &toki
                 // (an edited function leaves the stream's own text as it was: the report is not judged there)
                 if !ok && edit != "function" {
                     out.violation(
-                        "reload/report/changed-stream-not-updated",
+                        &format!("reload/report/changed-stream-not-updated/{}/{}", edit, fam),
                         "ReloadReport does not list a stream whose definition changed as updated (renamed: added)",
                         wit(json!({"stream": s2.name, "stream_kind": kind, "report": b.report})),
                     );
@@ -557,7 +560,7 @@ fn check_case(case: &Case, only_cut: Option<usize>, out: &mut Partial, rt: &toki
                     out.violation(
                         &(match symptom {
                             "route-lost" => format!("reload/route-lost/{}", fam),
-                            "old-definition-kept" => format!("reload/old-definition-kept/{}", fam),
+                            "old-definition-kept" => format!("reload/old-definition-kept/{}/{}", edit, fam),
                             _ => format!("reload/changed-stream/{}/{}/{}", edit, fam, symptom),
                         }),
                         "after reload(P') a stream whose definition changed does not behave like the same stream of a fresh engine of P' fed the remaining input",
